@@ -283,3 +283,96 @@ def checks(tier):
                       "commits with two octopus merges; parents, merge bases and fast-forward answers for every pair equal those "
                       "without the file (the harness of C14a)", outside="see C14a", tiers=q),
     ]
+
+
+# ---------------------------------------------------------------------------------------------
+# (e) the final filter of _find_lcas on its own: one call from an arbitrary candidate list
+import itertools
+_b13e = checks
+_PERMS = {k: [p for r in range(1, k + 1) for c in itertools.combinations(range(k), r) for p in itertools.permutations(c)]
+          for k in (3, 4, 5)}
+
+
+def h_remove_redundant(eng, n=4, last=None):
+    """_remove_redundant(cands) keeps exactly the candidates that are not proper ancestors of another candidate, in their
+    original order, for every DAG, every non-empty candidate set and every order in which _find_lcas may list it (the
+    order depends on the clock, so all orders are taken)"""
+    par = _dag_only(eng, n, last)
+    perms = _PERMS[n]
+    cands = list(perms[eng.choice("cands", len(perms))])
+    got = G._remove_redundant([ID(c) for c in cands], lambda c: [ID(p) for p in par[int(c[:2], 16) - 1]])
+    want = [ID(c) for c in cands if not any(d != c and c in _anc(par, d) for d in cands)]
+    eng.observe("kept", got)
+    eng.prove(got == want, "exactly the candidates not reachable from another candidate survive, order kept")
+
+
+def _dag_only(eng, n, last):
+    par = {}
+    for j in range(n):
+        par[j] = [i for i in range(j)
+                  if (bool(last >> i & 1) if (j == n - 1 and last is not None) else bool(eng.bool(f"e{j}_{i}")))]
+    return par
+
+
+def checks(tier):
+    q = ("quick", "thorough")
+    return _b13e(tier) + [
+        KCheck("C13e.remove_redundant", h_remove_redundant, parts=[{"n": 3}] + [{"n": 4, "last": m} for m in range(8)],
+               encoded=["dulwich.graph._remove_redundant"],
+               bounds="every DAG of 3 and 4 commits, every non-empty candidate subset in every order (the order _find_lcas produces "
+                      "depends on the timestamps, so every order stands for every clock)",
+               outside="more than 4 commits (5 thorough); shallow boundaries (lookup failures)", tiers=q),
+        KCheck("C13e.remove_redundant_5", h_remove_redundant, parts=[{"n": 5, "last": m} for m in range(16)],
+               encoded=["dulwich.graph._remove_redundant"],
+               bounds="every DAG of 5 commits, every non-empty candidate subset in every order",
+               outside="more than 5 commits; shallow boundaries", time_budget=2400, tiers=("thorough",)),
+    ]
+
+
+# ---------------------------------------------------------------------------------------------
+# (f) excludes with tied timestamps (monotone, not strictly) and the slop window brought inside the bound
+import dulwich.walk as _W
+_b13f = checks
+
+
+def h_walk_exclude_ties(eng, n=4, last=None, slop=1):
+    """as h_walk_exclude, but parents may carry the same timestamp as their children (clocks with one-second resolution
+    make such ties common) and the walker's slop constant _MAX_EXTRA_COMMITS is scaled down to `slop`, so that the window
+    in which the walk runs on after the queue holds only excluded commits lies inside the 4-5 commit bound. Exactness on
+    non-decreasing clocks does not depend on the constant's value (everything already emitted is at least as new as the
+    last emitted commit, so once the newest queued commit is older than that nothing emitted can be its ancestor)."""
+    par, ts = _dag(eng, n, last)
+    for j in par:
+        for i in par[j]:
+            eng.assume(ts[j] >= ts[i])
+    store = _store(par, ts)
+    inc = [i for i in range(n) if bool(eng.bool(f"inc{i}"))]
+    exc = [i for i in range(n) if bool(eng.bool(f"exc{i}"))]
+    eng.assume(len(inc) > 0 and len(exc) > 0)
+    old = _W._MAX_EXTRA_COMMITS
+    _W._MAX_EXTRA_COMMITS = slop
+    try:
+        w = Walker(store, [ID(i) for i in inc], exclude=[ID(i) for i in exc])
+        out = [e.commit.id for e in w]
+    finally:
+        _W._MAX_EXTRA_COMMITS = old
+    reach = set().union(*[_anc(par, i) for i in inc]) - set().union(*[_anc(par, i) for i in exc])
+    eng.prove(len(out) == len(set(out)), "each commit at most once")
+    eng.prove(set(out) == {ID(i) for i in reach}, "reachable(include) - reachable(exclude) with tied timestamps")
+
+
+def checks(tier):
+    q = ("quick", "thorough")
+    enc = ["dulwich.walk.Walker", "dulwich.walk._CommitTimeQueue._step/_exclude_parents"]
+    return _b13f(tier) + [
+        KCheck("C13f.walk_exclude_ties", h_walk_exclude_ties, parts=[{"n": 3, "last": m, "slop": s} for m in range(4) for s in (1, 5)],
+               encoded=enc,
+               bounds="every DAG on 3 commits, every include/exclude set, symbolic timestamps non-decreasing along edges (ties "
+                      "allowed); slop constant _MAX_EXTRA_COMMITS at its real value 5 and scaled to 1",
+               outside="4 commits (thorough); runs of ties longer than the bound at the real slop value (reached through the "
+                       "scaled constant only)", max_decisions=900, tiers=q),
+        KCheck("C13f.walk_exclude_ties_4", h_walk_exclude_ties,
+               parts=[{"n": 4, "last": m, "slop": s} for m in range(8) for s in (1, 2)], encoded=enc,
+               bounds="every DAG on 4 commits, every include/exclude set, non-decreasing symbolic timestamps; slop 1 and 2",
+               outside="-", max_decisions=900, time_budget=6000, tiers=("thorough",)),
+    ]
